@@ -3,7 +3,7 @@ import json
 import os
 import re
 
-from .. import build, common, dd, inventory, reports, runner, shimlog
+from .. import build, common, dd, inventory, reports, runner, shimlog, tree
 from ..common import fsd, fse
 from ..runner import ok, violation, inconclusive
 from . import ddcase
@@ -21,6 +21,12 @@ def run_case(arg):
     seed, i, tier = arg
     r = common.rng_for(seed, "C02", i)
     sc = ddcase.gen_scenario(r)
+    if r.random() < 0.1:
+        # file names at the NAME_MAX boundary: 255 bytes (no temporary sibling name can be formed), 231, 230
+        fl = [e["p"] for e in sc["spec"]["entries"] if e["t"] == "f"]
+        for old, L in zip(r.sample(fl, min(len(fl), 3)), (255, 231, 230)):
+            dn = old.rsplit("/", 1)[0]
+            tree.rename_entry(sc["spec"], sc["meta"], old, dn + "/" + "Z" * (L - 1) + "0123456789"[fl.index(old) % 10])
     scratch = common.Scratch("C02")
     try:
         return _run(sc, r, scratch, i)
